@@ -174,7 +174,7 @@ def run(res, tier, seed, widen=1):
     # thousands of reconnect cycles: bounded pending tasks
     for cycles, outcome in ((3000 if tier == "quick" else 20000, "fail"), (1500 if tier == "quick" else 8000, "ok")):
         script = [(outcome, 0, 1 if outcome == "ok" else None)] * cycles + [("ok", 0, None)]
-        r = vloop.run_scenario(script, threshold=1, sleep_sec=1, max_delay=1, max_iters=10 ** 9)
+        r = vloop.run_scenario(script, threshold=1, sleep_sec=1, max_delay=1, max_iters=cycles * 60 + 2000)
         res.evaluations += 1
         case = {"op": "connmgr", "script": f"{cycles} x {outcome}", "close_at": None, "cfg": [1, 1, 1]}
         n_att = sum(1 for e in r["events"] if e[2] == "attempt")
@@ -199,7 +199,7 @@ def replay(payload, res):
         n, outcome = c["script"].split(" x ")
         cycles = int(n)
         script = [(outcome, 0, 1 if outcome == "ok" else None)] * cycles + [("ok", 0, None)]
-        r = vloop.run_scenario(script, threshold=1, sleep_sec=1, max_delay=1, max_iters=10 ** 9)
+        r = vloop.run_scenario(script, threshold=1, sleep_sec=1, max_delay=1, max_iters=cycles * 60 + 2000)
         n_att = sum(1 for e in r["events"] if e[2] == "attempt")
         why = []
         if r["max_pending"] > 4:
